@@ -219,6 +219,23 @@ try:
 except Exception as exc:
     report["chgcar_crafted_error"] = repr(exc)[:300]
 
+# VASP: a negative scaling factor is the cell volume in cubic angstrom (same crystal as scale 3.57 here)
+try:
+    p = os.path.join(tmp, "POSCAR.negscale")
+    open(p, "w").write("negative scale\n  -45.499293\n 1.0 0.0 0.0\n 0.0 1.0 0.0\n 0.0 0.0 1.0\n O\n 1\nDirect\n 0.25 0.25 0.25\n")
+    d = load_one(p, fmt="poscar")
+    report["poscar_negative_scale"] = {"cell_edge_in_angstrom": float(d.cellvecs[0, 0] / iodata.utils.angstrom), "expected": 45.499293 ** (1.0 / 3.0)}
+except Exception as exc:
+    report["poscar_negative_scale"] = {"error": repr(exc)[:200]}
+# Gaussian input: units=au (or units=bohr) in the route section means the coordinates are in bohr
+try:
+    p = os.path.join(tmp, "au.com")
+    open(p, "w").write("#p hf/sto-3g units=au\n\ntitle\n\n0 1\nH 0.0 0.0 0.0\nH 0.0 0.0 1.4\n\n")
+    d = load_one(p, fmt="gaussianinput")
+    report["gaussianinput_units_au"] = {"bond_in_bohr": float(d.atcoords[1, 2] - d.atcoords[0, 2]), "expected": 1.4}
+except Exception as exc:
+    report["gaussianinput_units_au"] = {"error": repr(exc)[:200]}
+
 # QCSchema molecule with a `masses` entry (unified atomic mass units by the schema); none in the corpus
 src = os.path.join(data_dir, "LiCl_molecule.json")
 if os.path.exists(src):
